@@ -41,6 +41,13 @@ fn main() {
         return;
     }
 
+    // Child mode of C11's cached-precision group (the caches are per process).
+    if let Ok(case) = std::env::var("VCHECK_C11_CACHED_CHILD") {
+        galloc::set_bypass(true);
+        props::c11::cached_child(&case);
+        return;
+    }
+
     galloc::set_bypass(true);
     let args: Vec<String> = std::env::args().skip(1).collect();
     let Some(cmd) = args.first() else { usage() };
